@@ -16,7 +16,7 @@ from vf.harness import c01, c02
 from vf.ref import refexec
 
 PID = 'C05'
-RETS = ['ok', 'continue', 'fail', 'fail_subtest', 'skip', 'stop', 'repeat', 'raise', 'bad', 'bad0', 'hang', 'sysexit']
+RETS = ['ok', 'continue', 'fail', 'fail_subtest', 'skip', 'stop', 'repeat', 'raise', 'bad', 'bad0', 'hang', 'sysexit', 'hangswallow']
 MEAS_DIAG = [
     ('none', []), ('pass', []), ('fail', []), ('unset', []), ('marg', []), (['fail', 'pass'], []), (['unset', 'fail', 'pass'], []),
     ('none', ['A']), ('none', ['FA']), ('none', ['raise']), ('none', ['raise', 'FA']), ('none', ['none', 'A']),
@@ -128,8 +128,84 @@ def monitored_cases():
   return n, bad
 
 
+def abort_cases():
+  """An invocation that is cut short by an operator abort still yields exactly one record (ERROR) -- also when the body is
+  slow to die (stuck where the termination request cannot reach it) and the executor gives up waiting for it."""
+  import threading, time  # pylint: disable=g-import-not-at-top,multiple-imports
+  from vf import htf as vhtf  # pylint: disable=g-import-not-at-top
+  L = progs.lib()
+  h, conf = L['htf'], L['conf']
+  bad, n = [], 0
+  for kind in ('dies', 'deaf'):
+    for position in ('plain', 'group-main'):
+      n += 1
+      state = {'over': False, 'calls': 0}
+      holder = {}
+
+      def x(test):
+        state['calls'] += 1
+        def later():
+          time.sleep(0.02)          # (the executor is already waiting for the phase when the operator aborts)
+          holder['test'].abort_from_sig_int()
+
+        t = threading.Thread(target=later, name='aborter')
+        t.daemon = True
+        t.start()
+        while not state['over']:
+          try:
+            time.sleep(0.0005)
+          except BaseException:  # pylint: disable=broad-except
+            if kind == 'dies':
+              raise
+
+      def prepare(test):
+        pass
+
+      def cleanup(test):
+        pass
+
+      def after(test):
+        state['after'] = True
+
+      nodes = [prepare, x, after] if position == 'plain' else [prepare, h.PhaseGroup(main=[x, after], teardown=[cleanup])]
+      test = h.Test(*nodes)
+      holder['test'] = test
+      cap = vhtf.Capture()
+      test.add_output_callbacks(cap)
+      # as with the stock constants (poll every 3 s, give up after 2 s) the aborting side gives up waiting for the body
+      # before the executor's next look at it
+      conf.load(cancel_timeout_s=0.05)
+      saved_poll = L['pe']._JOIN_TRY_INTERVAL_SECONDS  # pylint: disable=protected-access
+      L['pe']._JOIN_TRY_INTERVAL_SECONDS = 0.3  # pylint: disable=protected-access
+      try:
+        test.execute()
+      finally:
+        state['over'] = True
+        conf.reset()
+        L['pe']._JOIN_TRY_INTERVAL_SECONDS = saved_poll  # pylint: disable=protected-access
+        h.Test.HANDLED_SIGINT_ONCE = False
+      rec = cap.records[0]
+      xs = [(p.outcome.name, progs.result_kind(p.result)) for p in rec.phases if p.name == 'x']
+      tag = 'abort:%s:%s' % (kind, position)
+      if state['calls'] != 1 or len(xs) != 1:
+        bad.append((tag + ':records', 'body invoked %d time(s), %d phase record(s) for it (records %r)'
+                    % (state['calls'], len(xs), [(p.name, p.outcome.name) for p in rec.phases]), {'abort_case': [kind, position]}))
+      elif xs[0][0] != 'ERROR':
+        bad.append((tag + ':outcome', 'aborted invocation recorded as %r' % (xs[0],), {'abort_case': [kind, position]}))
+      if rec.outcome.name != 'ABORTED' or state.get('after'):
+        bad.append((tag + ':run', 'run outcome %s, phase after the aborted one ran: %r' % (rec.outcome.name, bool(state.get('after'))),
+                    {'abort_case': [kind, position]}))
+      if position == 'group-main' and not any(p.name == 'cleanup' for p in rec.phases):
+        bad.append((tag + ':teardown', 'teardown phase has no record', {'abort_case': [kind, position]}))
+  return n, bad
+
+
 def run(tier):
   rep = common.Report(PID, tier, 'model_checking')
+  na, bada = abort_cases()
+  rep.merge_violations(bada)
+  rep.add_part('aborted invocations', states=na, transitions=na, traces_validated_against_impl=na, evaluations=na,
+               distinct_nontrivial=na, exhaustive=True, samples=[{'bodies': ['dies at once', 'slow to die'], 'positions': ['plain', 'group main']}])
   nm, badm = monitored_cases()
   rep.merge_violations(badm)
   rep.add_part('monitored phases (differential)', states=nm, transitions=nm, traces_validated_against_impl=2 * nm, evaluations=nm,
@@ -155,6 +231,12 @@ def run(tier):
 
 def replay(art):
   r = art['replay']
+  if 'abort_case' in r:
+    n, bad = abort_cases()
+    hit = [b for b in bad if b[2]['abort_case'] == r['abort_case']]
+    for b in hit:
+      print('VIOLATED', b[0], b[1])
+    return 1 if hit else 0
   if 'monitored' in r:
     n, bad = monitored_cases()
     hit = [b for b in bad if b[2]['monitored'] == r['monitored']]
